@@ -330,7 +330,7 @@ func VerifyHashed(pubx, puby, e, r, s []byte) (bool, error) {
 
 	// done sanity check
 	var tBytes []byte
-	tBytes = t.Bytes()
+	tBytes = ensure32Bytes(&t) // the recoding below indexes a fixed 256-bit string; t.Bytes() drops leading zero bytes
 
 	result, err = internal.ScalarMixedMult_Unsafe(s, pub, tBytes)
 	if err != nil {
